@@ -22,7 +22,8 @@ static int nondet01(const char *nm)
 /* ---- stubs of the library callees (other translation unit: lib.c, lpdata.c, simplex.c) ---- */
 void mpq_ILLlp_cache_free(mpq_ILLlp_cache *C) { g_cache_freed = 1; }
 void mpq_ILLlp_basis_free(mpq_ILLlp_basis *B) { g_basis_freed = 1; }
-void mpq_ILLsimplex_set_bound(mpq_lpinfo *lp, const mpq_t *objbound, int sense) { g_lib_called = 1; }
+const mpq_t *g_bound_ptr; int g_bound_sense, g_bound_calls;
+void mpq_ILLsimplex_set_bound(mpq_lpinfo *lp, const mpq_t *objbound, int sense) { g_lib_called = 1; g_bound_ptr = objbound; g_bound_sense = sense; g_bound_calls++; }
 int mpq_ILLlib_chgcoef(mpq_lpinfo *lp, int r, int c, mpq_t coef) { STUB_RET(); }
 int mpq_ILLlib_chgsense(mpq_lpinfo *lp, int num, int *rowlist, char *sense)
 {	/* assumed fact of ILLlib_chgsense (decided in lib/chgsense_b): it succeeds only if every listed row index is in range; list length capped (constant-range quantifier) */
@@ -90,6 +91,7 @@ void harness(void)
 	g_old_objsense = p ? p->qslp->objsense : 0;
 	mpq_t num; IN_INT(a); IN_INT(b); IN_INT(c);
 	qsv_setnum(num, 0);
+	g_bound_calls = 0; g_bound_ptr = 0; g_bound_sense = 0;
 	g_lib_rv = 0; g_lib_called = 0; g_cache_freed = 0; g_basis_freed = 0; g_basis_ok = 0; g_cache_ok = 0;
 	g_factorok_out = p ? p->factorok : 0; g_factorok_in = -1;
 #if defined(FN_QSchange_coef)
@@ -138,6 +140,12 @@ void harness(void)
 	if (p) ASSERT(!(rv == 0) || p->qslp->objsense == a, "C06: objective sense stored");
 	keep_f = 1; cache_may_stay = 1;
 	if (p && rv == 0) ASSERT(p->cache == 0 || p->cache == old_cache, "C05: cache only dropped, never replaced");
+	if (p && rv == 0 && a != g_old_objsense) {
+		ASSERT(p->cache == 0 && p->qstatus == QS_LP_MODIFIED, "C05: a real change of the objective sense drops the stored solution");
+		ASSERT(g_bound_calls == 1 && g_bound_sense == a && g_bound_ptr == (a == QS_MAX ? (const mpq_t *) &p->lobjlim : (const mpq_t *) &p->uobjlim),
+			"C05: after a sense change the simplex stops at the objective limit of the NEW sense: the upper limit when minimising, the lower limit when maximising");
+	}
+	if (p && rv == 0 && a == g_old_objsense) ASSERT(g_bound_calls == 0 && p->cache == old_cache, "C05: restating the current sense changes nothing");
 #else
 #error "select a wrapper with -DFN_<name>"
 #endif
